@@ -530,6 +530,7 @@ func (fx *Fx) callFuncValue(st *State, call *ast.CallExpr, preArgs []Val) []Val 
 	ms := newModSet()
 	fx.w.callMods(fx.pkg, c, call, ms, nil)
 	ms.opaque = false
+	ms.fncall = false // calls made inside unknown code are not this activation's calls
 	ms.emits = false
 	fx.havocMods(st, ms)
 	st.havocLogOpaque()
@@ -538,6 +539,11 @@ func (fx *Fx) callFuncValue(st *State, call *ast.CallExpr, preArgs []Val) []Val 
 	if sig != nil {
 		for i := 0; i < sig.Results().Len(); i++ {
 			out = append(out, fx.freshOfType(st, "fr", sig.Results().At(i).Type()))
+		}
+		// ghost: how many of the calls made through each function value returned true (single boolean result)
+		if len(out) == 1 && out[0].S == "Bool" {
+			nt := st.heap("NCT", "(Array Int Int)")
+			st.setHeap("NCT", "(Array Int Int)", fmt.Sprintf("(store %s (fn_code %s) (+ (select %s (fn_code %s)) (ite %s 1 0)))", nt, fv.T, nt, fv.T, out[0].T))
 		}
 	}
 	return out
@@ -569,10 +575,12 @@ func (fx *Fx) havocMods(st *State, ms *modSet) {
 	}
 	if ms.emits || ms.all {
 		st.havocLog()
-		st.havocHeap("NC")
 	} else if ms.opaque {
 		st.havocLogOpaque()
+	}
+	if ms.fncall || ms.all {
 		st.havocHeap("NC")
+		st.havocHeap("NCT")
 	}
 	if ms.allocs || ms.all {
 		st.havocAlloc()
@@ -731,6 +739,7 @@ func (fx *Fx) spawnPre(st *State, fn *types.Func, recv *Val, args []Val, call *a
 			bound[pn] = args[i]
 		}
 	}
+	fx.w.aliasRecordedNames(key, bound)
 	specPos := token.NoPos
 	if fi, ok := fx.w.Funcs[key]; ok {
 		specPos = fi.Body.Lbrace
@@ -767,6 +776,7 @@ func (fx *Fx) applyCall(st *State, fn *types.Func, recv *Val, args []Val, call *
 		}
 		bound[fmt.Sprintf("arg%d", i)] = args[i]
 	}
+	fx.w.aliasRecordedNames(key, bound)
 	specPos := token.NoPos
 	if fi, ok := fx.w.Funcs[key]; ok {
 		specPos = fi.Body.Lbrace
@@ -838,6 +848,7 @@ func (fx *Fx) applyCall(st *State, fn *types.Func, recv *Val, args []Val, call *
 	if len(out) > 0 {
 		bound["result"] = out[0]
 	}
+	fx.w.aliasRecordedNames(key, bound)
 	// object-granular frames: heaps named as x.f change only at the object x
 	type objFrame struct{ key, old string }
 	var objFrames []objFrame
@@ -885,7 +896,6 @@ func (fx *Fx) applyCall(st *State, fn *types.Func, recv *Val, args []Val, call *
 		m2.opaque = false
 		fx.havocMods(st, &m2)
 		st.havocLogKinds(sp.Flags["emits"] == "opaque+calls")
-		st.havocHeap("NC")
 	} else {
 		fx.havocMods(st, ms)
 	}
